@@ -134,3 +134,10 @@ Proof.
   replace ((4 <=? 4)%Z) with true by reflexivity. cbn [andb].
   replace (4 - 4)%Z with 0%Z by lia. rewrite Z.pow_0_r, Z.mul_1_r. reflexivity.
 Qed.
+
+Lemma opt_phase_eqb_sound : forall A B, opt_phase_eqb A B = true ->
+  exists U, A = Some U /\ phase_eq U B.
+Proof.
+  intros [U|] B H; cbn in H; [|discriminate].
+  exists U. split; [reflexivity | apply phase_eqb_sound; exact H].
+Qed.
